@@ -8,7 +8,7 @@ import numpy as np
 
 from .. import alph
 from .. import oracles as O
-from ..core import CaseResult
+from ..core import CaseResult, variants
 
 PROP = "C12"
 LEVEL = "model_checking"
@@ -192,6 +192,15 @@ def check_case(case):
         held.append((q2, out, np.array(out, float, copy=True)))
     for q2, out, snap in held:
         r.require(bool(np.array_equal(np.asarray(out, float), snap)), "cs%d:U1=%s:U2=%s:held" % (k, q1, q2), "a Umis result already returned is not changed by later calls")
+    # argument kinds x call forms: orientation matrices as ndarray / strided view / Fortran order / transposed view / float32 and, for
+    # the 24 axis-aligned rotations (whole numbers), integer arrays; the crystal system as int / numpy int; positionally and by keyword
+    # (nested lists and tuples are not accepted by the unchanged library - umat.T - and are left out)
+    nolist = ("list", "tuple", "int list", "int tuple")
+    Ua, Ub = axis24[case["i"] % len(axis24)], axis24[(case["i"] * 5 + 1) % len(axis24)]
+    for a_, b_, tg in ((U1, R[(case["i"] + 7) % len(R)][1], "lattice"), (Ua, Ub, "axis24")):
+        for pos in (0, 1):
+            variants(r, "cs%d:Umis(%s,%d)" % (k, tg, case["i"]), symmetry.Umis, [a_, b_, k], pos, 1e-4, 0.2, skip=nolist)
+    variants(r, "cs%d:Umis(axis24,%d)" % (k, case["i"]), symmetry.Umis, [Ua, Ub, k], 2, 1e-4, None, skip=("float", "np.float64", "0-d array"))
     mm = np.asarray(symmetry.Umis(U1, U1, k), float)
     r.require(float(mm[:, 1].min()) < 1e-4, "cs%d:U=%s:self" % (k, q1), "Umis(U,U) contains 0", 0, float(mm[:, 1].min()))
     return r
